@@ -300,6 +300,14 @@ class Ctx:
 
     def case_seen(self, case, nontrivial, sample_every=0):
         self.evaluations += 1
+        if isinstance(case, dict) and isinstance(case.get("matrix"), list) and "criteria" in case and "objectives" in case:
+            try:   # how the decision matrix of this case was obtained (impl.mk) and whether it has integer criteria
+                from . import impl as _I
+                self.count("matrix_built_by:" + _I.mk_route(case))
+                if case.get("dtypes") and any(t == "int64" for t in case["dtypes"] if isinstance(t, str)):
+                    self.count("matrix_with_integer_criteria")
+            except Exception:  # noqa: BLE001
+                pass
         if nontrivial:
             h = hashlib.sha1(json.dumps(V.jsonable(case), sort_keys=True).encode()).hexdigest()
             self.nontrivial.add(h)
